@@ -45,8 +45,8 @@ Definition model_obs (c : ty * json) : obs :=
   | Ok v => Ok (v, unstructure v)
   | Err => Err
   end.
-(* bit1 F14a, bit2 F14b, bit3 F14d, bit4 F14e *)
+(* bit1 F14a, bit2 F14b, bit3 F14d *)
 Definition guards (c : ty * json) : list bool :=
-  let b := blame_of (fst c) (snd c) in [negb (b_a b); negb (b_b b); negb (b_d b); negb (b_e b)].
+  let b := blame_of (fst c) (snd c) in [negb (b_a b); negb (b_b b); negb (b_d b)].
 Definition run (cases : list ((ty * json) * obs)) : list N :=
   report obs_eqb model_obs guards cases.
